@@ -568,6 +568,23 @@ func shapes(thorough bool) []shape {
 			s.Members = append(s.Members, member{Key: n + j, Validated: true, Discriminated: j == 0, Delegatee: 0})
 		}
 		out = append(out, s)
+		// a pool whose online owner is personally discriminated while k of its delegators are approved, next to
+		// discriminated singles: the owner's own seat must not count as approved, the delegators' seats must
+		// (the committee is sampled from 9 seats on, so draws with the owner's seat and without a delegator's occur)
+		if n <= 12 {
+			for _, k := range []int{1, 2} {
+				for _, singles := range []int{0, 3} {
+					s := shape{Name: fmt.Sprintf("n=%d, owner 0 discriminated with %d approved delegator(s), %d discriminated singles", n, k, singles)}
+					for i := 0; i < n; i++ {
+						s.Members = append(s.Members, member{Key: i, Validated: true, Online: true, Discriminated: i == 0 || (i >= 1 && i <= singles), Delegatee: -1})
+					}
+					for j := 0; j < k; j++ {
+						s.Members = append(s.Members, member{Key: n + j, Validated: true, Delegatee: 0})
+					}
+					out = append(out, s)
+				}
+			}
+		}
 	}
 	return out
 }
